@@ -66,3 +66,17 @@ package publicationpb
 //@   // a publication that was found already acknowledged is returned when the caller allows that
 //@   ensures [allow-acknowledged] old(request.Id) != "" && old(request.Version) != "" && acknowledgedPub != nil && request.AllowAcknowledged ==> err == nil && res == acknowledgedPub
 //@   replay PublicationAckTwice()
+//@
+//@ // C15: page tokens are written and read with the same base64 alphabet (the chain-of-pages argument assumes that a
+//@ // token handed out is accepted again; the codec itself is a library assumption)
+//@ property C15
+//@ func encodePageToken(pageToken) (res, err)
+//@   inline
+//@   track EncodeToString
+//@   ensures [alphabet] calls(EncodeToString) > old(calls(EncodeToString)) ==> lastarg(EncodeToString, 0) == base64.StdEncoding
+//@   ensures [encoded] pageToken != nil && err == nil ==> calls(EncodeToString) == old(calls(EncodeToString)) + 1
+//@ func decodePageToken(token, pageToken) (err)
+//@   inline
+//@   track DecodeString
+//@   ensures [alphabet] calls(DecodeString) > old(calls(DecodeString)) ==> lastarg(DecodeString, 0) == base64.StdEncoding
+//@   ensures [decoded] token != "" ==> calls(DecodeString) == old(calls(DecodeString)) + 1
